@@ -430,11 +430,20 @@ func setterAccLayers(tier string) []Layer {
 // C14 getters: Int, Int64, Uint64, Rat, IsInt, MinPrec
 
 func getterCase(c *Ctx, xo *Opnd) {
+	getterCaseOn(c, xo, xo.Build(), "")
+	if xo.Form == fFinite {
+		// the same value still carrying Below/Above from the rounding that produced it: getters depend on the value only
+		if xv := xo.buildVariant(1); xv.Acc() != 0 {
+			getterCaseOn(c, xo, xv, " [x.Acc() != Exact]")
+		}
+	}
+}
+
+func getterCaseOn(c *Ctx, xo *Opnd, x *Dec, tag string) {
 	if c.Skip() {
 		return
 	}
-	x := xo.Build()
-	key := func(op string) string { return fmt.Sprintf("%s x=%s", op, xo) }
+	key := func(op string) string { return fmt.Sprintf("%s x=%s%s", op, xo, tag) }
 	v := xo.V
 	// exact integer part (toward zero) and whether a fraction was discarded
 	var ip *big.Int
@@ -617,7 +626,7 @@ func getterCase(c *Ctx, xo *Opnd) {
 			c.Fail(key("Rat retention"), fmt.Sprintf("the returned *big.Rat changed to %v after conversions of other values, want %v", keepRat, wantRat))
 		}
 	}
-	if msg := xo.CheckBuilt(x); msg != "" {
+	if msg := xo.CheckBuilt2(Observe(x)); msg != "" {
 		c.Fail(key("operand"), "x modified by a getter: "+msg)
 	}
 	if c.WantSample() {
